@@ -22,6 +22,7 @@ type c17Step struct {
 type c17Params struct {
 	Cap      int       `json:"cap"`      // capacity increment of the receiving world
 	PreReset int       `json:"prereset"` // entities created (and Reset away) in the receiving world before the load
+	PreEmpty bool      `json:"preempty"` // ... all of them removed again before the Reset
 	ViaJSON  bool      `json:"viajson"`  // pass the dump through JSON
 	H2       []c17Step `json:"h2"`
 	// Mid: further history of the SOURCE world between the dump and the load. The loaded world
@@ -115,6 +116,9 @@ func dumpLoadContinuationBody(sim *core.Sim, p *c17Params, cs *core.Case) {
 	L := &lw
 	if p.PreReset > 0 {
 		ecs.NewBuilder(L).NewBatch(p.PreReset)
+		if p.PreEmpty {
+			L.Batch().RemoveEntities(ecs.All())
+		}
 		L.Reset()
 		if cs != nil {
 			cs.Label("load into a reset world")
@@ -350,12 +354,13 @@ func TestC17(t *testing.T) {
 		Once: func(t *testing.T, st *core.Stats) {
 			t.Run("json", func(t *testing.T) { entityJSONRoundTrip(t, st) })
 		},
-		Rule: "pre-history of single and batch creations, removals, RemoveEntities and Reset (any free-list shape) on a world of generated capacity increment; then DumpEntities, optionally through encoding/json, LoadEntities into a fresh or a used-and-reset world of another generated capacity increment; then a generated continuation of NewEntity, NewBatchQ(n) and RemoveEntity applied to both worlds; oracle: Alive equal for every handle issued since the source's last reset and for all later ones after every continuation step, handles issued during the continuation identical in both worlds and never issued before, the loaded world's dump equals the source's (Entities, Next, Available, alive ids as a set) before and after the continuation, used count equal, loading into the non-empty source world panics and changes nothing; in a quarter of the cases the source world goes on (creations/removals) between the dump and the load, and the loaded world must equal one loaded from a deep copy taken at dump time; separately, Entity JSON round trips for arbitrary (id, generation); non-trivial = free list of length >= 2 at dump time and a continuation that creates more entities than the free list holds",
+		Rule: "pre-history of single and batch creations, removals, RemoveEntities and Reset (any free-list shape) on a world of generated capacity increment; then DumpEntities, optionally through encoding/json, LoadEntities into a fresh or a used-and-reset world (entities still alive, or all removed, at the Reset) of another generated capacity increment; then a generated continuation of NewEntity, NewBatchQ(n) and RemoveEntity applied to both worlds; oracle: Alive equal for every handle issued since the source's last reset and for all later ones after every continuation step, handles issued during the continuation identical in both worlds and never issued before, the loaded world's dump equals the source's (Entities, Next, Available, alive ids as a set) before and after the continuation, used count equal, loading into the non-empty source world panics and changes nothing; in a quarter of the cases the source world goes on (creations/removals) between the dump and the load, and the loaded world must equal one loaded from a deep copy taken at dump time; separately, Entity JSON round trips for arbitrary (id, generation); non-trivial = free list of length >= 2 at dump time and a continuation that creates more entities than the free list holds",
 		Finish: func(rt *rapid.T, sim *core.Sim, tr *tracker) {
 			p := &c17Params{
 				Cap:      rapid.SampledFrom([]int{1, 2, 3, 8, 128}).Draw(rt, "loadcap"),
 				PreReset: rapid.SampledFrom([]int{0, 0, 1, 5, 40}).Draw(rt, "prereset"),
 				ViaJSON:  rapid.Bool().Draw(rt, "viajson"),
+				PreEmpty: rapid.Bool().Draw(rt, "preempty"),
 			}
 			n := rapid.IntRange(0, 30).Draw(rt, "nh2")
 			for i := 0; i < n; i++ {
